@@ -62,29 +62,34 @@ def resolve (D : Path) (s : FS) : Nat → Path → List String → Except RErr P
 
 def fuel0 : Nat := 400
 
-/-- `os.Stat(path)`: the object a path finally denotes -/
-def statObj (D : Path) (s : FS) (p : Path) : Option Obj :=
+/-- `os.Stat(D/rel)`: the object the path finally denotes.  Paths the unpacker touches are `D` joined with a cleaned
+relative path; the directories above `D` are plain directories, so resolution starts at `D`. -/
+def statRel (D : Path) (s : FS) (rel : List String) : Option Obj :=
+  match resolve D s fuel0 D rel with
+  | .ok q => s.get q
+  | .error _ => none
+
+/-- `os.Stat` of an arbitrary path of the sandbox (used by the clean-up for lexically joined link targets) -/
+def statAbs (D : Path) (s : FS) (p : Path) : Option Obj :=
   match resolve D s fuel0 [] p with
   | .ok q => s.get q
   | .error _ => none
 
-def isDirAt (D : Path) (s : FS) (p : Path) : Bool := statObj D s p == some .dir
-
-/-- `os.Lstat(fullPath)` succeeds: the parent resolves to a directory and the last component exists (not followed) -/
-def lstatOk (D : Path) (s : FS) (full : Path) : Bool :=
-  match full.getLast? with
+/-- `os.Lstat(D/rel)` succeeds: the parent resolves to a directory and the last component exists (not followed) -/
+def lstatOk (D : Path) (s : FS) (rel : List String) : Bool :=
+  match rel.getLast? with
   | none => true
   | some name =>
-    match resolve D s fuel0 [] full.dropLast with
+    match resolve D s fuel0 D rel.dropLast with
     | .error _ => false
     | .ok pp => s.get pp == some .dir && !tooLong name && (s.get (pp ++ [name])).isSome
 
-/-- `os.Mkdir(path)` plus the `Lstat`-is-a-directory excuse of `os.MkdirAll` -/
-def mkdir1 (D : Path) (s : FS) (full : Path) : FS × Bool :=
-  match full.getLast? with
+/-- `os.Mkdir(D/rel)` plus the `Lstat`-is-a-directory excuse of `os.MkdirAll` -/
+def mkdir1 (D : Path) (s : FS) (rel : List String) : FS × Bool :=
+  match rel.getLast? with
   | none => (s, true)
   | some name =>
-    match resolve D s fuel0 [] full.dropLast with
+    match resolve D s fuel0 D rel.dropLast with
     | .error _ => (s, false)
     | .ok pp =>
       if s.get pp != some .dir || tooLong name then (s, false)
@@ -94,33 +99,37 @@ def mkdir1 (D : Path) (s : FS) (full : Path) : FS × Bool :=
         | some .dir => (s, true)
         | some _ => (s, false)
 
-/-- `os.MkdirAll` on a cleaned path given in reverse (last component first) -/
+/-- `os.MkdirAll(D/rel)` on a cleaned relative path given in reverse (last component first): Stat fast path,
+lexical parent first, then Mkdir -/
 def mkdirAllRev (D : Path) (s : FS) : List String → FS × Bool
   | [] => (s, true)
   | name :: rparent =>
-    let full := (name :: rparent).reverse
-    match statObj D s full with
+    let rel := (name :: rparent).reverse
+    match statRel D s rel with
     | some .dir => (s, true)                       -- fast path
     | some _ => (s, false)                         -- exists, not a directory
     | none =>
       match mkdirAllRev D s rparent with
       | (s1, false) => (s1, false)
-      | (s1, true) => mkdir1 D s1 full
+      | (s1, true) => mkdir1 D s1 rel
 
-def mkdirAll (D : Path) (s : FS) (full : Path) : FS × Bool := mkdirAllRev D s full.reverse
+def mkdirAll (D : Path) (s : FS) (rel : List String) : FS × Bool := mkdirAllRev D s rel.reverse
 
 /-- a tar header: typ r(egular) l(ink: symbolic or hard) d(irectory) o(ther) -/
 structure TarEntry where
   typ : Char
-  name : String
+  nameAbs : Bool                -- header.Name starts with "/"
+  nameComps : List String       -- header.Name split on "/"
   cid : Nat
-  link : String
+  linkAbs : Bool                -- header.Linkname starts with "/"
+  linkComps : List String       -- header.Linkname split on "/"
+  linkRaw : String              -- header.Linkname
 deriving Repr
 
 /-- `symlink.TargetOutsideRoot(cleanPath, target)`: purely lexical -/
-def targetOutsideRoot (cleanDir : List String) (target : String) : Bool :=
-  if isAbs target then (cleanComps false (comps target)).1 > 0
-  else (cleanComps false (cleanDir ++ comps target)).1 > 0
+def targetOutsideRoot (cleanDir : List String) (targetAbs : Bool) (targetComps : List String) : Bool :=
+  if targetAbs then (cleanComps false targetComps).1 > 0
+  else (cleanComps false (cleanDir ++ targetComps)).1 > 0
 
 def isPrefix (a b : Path) : Bool := a.length ≤ b.length && b.take a.length == a
 
@@ -130,36 +139,37 @@ inductive Step
 
 /-- one iteration of the loop of `unpack()` -/
 def unpackStep (D : Path) (s : FS) (e : TarEntry) : Step :=
-  let c := clean e.name                                              -- cleanPath = path.Clean(header.Name)
-  let cleanSegs := List.replicate c.ups ".." ++ c.segs
+  let c := cleanComps e.nameAbs e.nameComps                          -- cleanPath = path.Clean(header.Name)
+  let cleanSegs := List.replicate c.1 ".." ++ c.2
   let full := (cleanComps true (D ++ cleanSegs)).2                   -- path.Join(dir, cleanPath)
   if !isPrefix D full then .ok s else                                -- isWithinDirectory(dir, fullPath)
-  if lstatOk D s full then .ok s else                                -- already unpacked
+  let rel := full.drop D.length
+  if lstatOk D s rel then .ok s else                                 -- already unpacked
   match e.typ with
   | 'r' =>
-    match mkdirAll D s full.dropLast with
+    match mkdirAll D s rel.dropLast with
     | (s1, false) => .fatal s1
     | (s1, true) =>
-      match resolve D s1 fuel0 [] full.dropLast with                 -- pathOutsideBaseDirectory: EvalSymlinks(parent)
+      match resolve D s1 fuel0 D rel.dropLast with                   -- pathOutsideBaseDirectory: EvalSymlinks(parent)
       | .error _ => .ok s1
       | .ok pp =>
         if !isPrefix D pp then .ok s1 else
-        let name := full.getLast?.getD ""
+        let name := rel.getLast?.getD ""
         if tooLong name then .fatal s1
         else
           match s1.get (pp ++ [name]) with
           | none => .ok (s1.put (pp ++ [name]) (.file e.cid))        -- os.WriteFile
           | some _ => .fatal s1
   | 'l' =>
-    let s1 := (mkdirAll D s full.dropLast).1                         -- failure is logged only (SymlinkErrLog)
-    if targetOutsideRoot cleanSegs.dropLast e.link then .ok s1 else
-    if e.link = "" then .ok s1 else
-    let t : Target := if isAbs e.link then ⟨true, (cleanComps true (comps e.link)).2, ""⟩    -- filepath.Join(dir, target)
-                      else ⟨false, comps e.link, e.link⟩
-    match resolve D s1 fuel0 [] full.dropLast with                   -- os.Symlink(targetPath, fullPath)
+    let s1 := (mkdirAll D s rel.dropLast).1                          -- failure is logged only (SymlinkErrLog)
+    if targetOutsideRoot cleanSegs.dropLast e.linkAbs e.linkComps then .ok s1 else
+    if e.linkRaw = "" then .ok s1 else
+    let t : Target := if e.linkAbs then ⟨true, (cleanComps true e.linkComps).2, ""⟩        -- filepath.Join(dir, target)
+                      else ⟨false, e.linkComps, e.linkRaw⟩
+    match resolve D s1 fuel0 D rel.dropLast with                     -- os.Symlink(targetPath, fullPath)
     | .error _ => .ok s1
     | .ok pp =>
-      let name := full.getLast?.getD ""
+      let name := rel.getLast?.getD ""
       if s1.get pp != some .dir || tooLong name || (s1.get (pp ++ [name])).isSome then .ok s1
       else .ok (s1.put (pp ++ [name]) (.link t))
   | _ => .ok s                                                       -- TypeDir: continue; other types: no case
@@ -167,7 +177,12 @@ def unpackStep (D : Path) (s : FS) (e : TarEntry) : Step :=
 def unpackPass (D : Path) (s : FS) (es : List TarEntry) : Step :=
   es.foldl (fun st e => match st with | .fatal f => .fatal f | .ok f => unpackStep D f e) (.ok s)
 
-def sortNames (l : List String) : List String := (l.toArray.qsort (· < ·)).toList
+def insertName (a : String) : List String → List String
+  | [] => [a]
+  | b :: bs => if a < b then a :: b :: bs else b :: insertName a bs
+
+/-- names in the order `ReadDir` returns them (byte order) -/
+def sortNames (l : List String) : List String := l.foldr insertName []
 
 /-- the names `ReadDir(d)` returns -/
 def childNames (s : FS) (d : Path) : List String :=
@@ -183,8 +198,8 @@ def removeObsolete (D : Path) : Nat → FS → Path → FS
       let p := d ++ [name]
       match s.get p with
       | some (.link t) =>
-        let ok := if t.abs then (statObj D s (D ++ t.comps)).isSome
-                  else (statObj D s (cleanComps true (d ++ t.comps)).2).isSome     -- filepath.Join(filepath.Dir(path), target)
+        let ok := if t.abs then (statRel D s t.comps).isSome
+                  else (statAbs D s (cleanComps true (d ++ t.comps)).2).isSome     -- filepath.Join(filepath.Dir(path), target)
         if ok then s else s.del p
       | some .dir => removeObsolete D fuel s p
       | _ => s) s
